@@ -182,6 +182,34 @@ template<class N, class T, class U>
             };
             check_shift("shl", shl_ok, [](auto x, auto y) { return x << y; });
             check_shift("shr", shcount, [](auto x, auto y) { return x >> y; });
+            // the count wrapped as well, and a bare built-in shifted by a wrapped count: value and type of the built-in shift
+            auto check_shift_wrapped_count = [&](const char* op, bool defined, auto&& f) {
+                if (!defined) {
+                    vf::skip_pre();
+                    return;
+                }
+                auto expect = f(a, b);
+                using E = decltype(expect);
+                auto one = [&](const char* side, auto&& g) {
+                    if constexpr (requires { unwrap_all(g()); }) {
+                        using G = decltype(unwrap_all(g()));
+                        G got{};
+                        vf::Outcome o = vf::run([&] { got = unwrap_all(g()); });
+                        vf::validated();
+                        if (!o.ok() || !std::is_same_v<G, E> || Big(got) != Big(expect)) {
+                            vf::outcome(o.ok() ? "wrong_shift" : o.str());
+                            vf::violation(std::string(op) + "/" + side + "/" + (!o.ok() ? o.str() : (!std::is_same_v<G, E> ? "result_rep_type" : "value")), id(),
+                                          id() + " " + op + " (" + side + "): got " + (o.ok() ? vf::to_s(got) + " (" + vf::tn<G>() + ")" : o.str()) + ", built-in gives " + vf::to_s(expect) + " (" + vf::tn<E>() + ")");
+                        } else
+                            vf::outcome(std::string("ok_") + op + "_" + side);
+                    } else
+                        vf::outcome(std::string("unsupported_") + op + "_" + side);
+                };
+                one("both_wrapped", [&] { return f(WT(a), WU(b)); });
+                one("builtin_left_wrapped_count", [&] { return f(a, WU(b)); });
+            };
+            check_shift_wrapped_count("shl", shl_ok, [](auto x, auto y) { return x << y; });
+            check_shift_wrapped_count("shr", shcount, [](auto x, auto y) { return x >> y; });
             // compound assignment: a op= b  ==  T(a op b)
             auto check_assign = [&](const char* op, bool defined, auto&& f) {
                 if (!defined) {
